@@ -30,6 +30,11 @@ type descriptor struct {
 	Bounds   []boundary   `json:"bounds"`
 	Script   []drive.Stim `json:"script"`
 	Perturb  uint64       `json:"perturb"`
+	// Loop: the host sits in a loop (merge -> host -> normal-path task ->
+	// exclusive split -> back | end) and is activated Loop more times, each
+	// completing normally, before the activation in which the events arrive:
+	// what was armed for an earlier activation must not react a second time
+	Loop int `json:"loop,omitempty"`
 }
 
 type built struct {
@@ -63,11 +68,25 @@ func build(d descriptor) *built {
 		host.TaskKind = d.HostKind
 	}
 	bt.host = host.ID
-	b.Connect(cur, host)
 	n := b.Add(gen.KTask)
 	en := b.Add(gen.KEnd)
-	b.Connect(host, n)
-	b.Connect(n, en)
+	if d.Loop > 0 {
+		mrg := b.Add(gen.KXor)
+		b.Connect(cur, mrg)
+		b.Connect(mrg, host)
+		b.Connect(host, n)
+		n.Results = []string{"again"}
+		x := b.Add(gen.KXor)
+		b.Connect(n, x)
+		back := b.Connect(x, mrg)
+		back.Formal, back.Cond = true, gen.BoolVar("again")
+		out := b.Connect(x, en)
+		x.Default = out.ID
+	} else {
+		b.Connect(cur, host)
+		b.Connect(host, n)
+		b.Connect(n, en)
+	}
 	for _, bd := range d.Bounds {
 		be := b.Add(gen.KBoundary)
 		be.AttachedTo = host.ID
@@ -110,6 +129,17 @@ func draw(rt *rapid.T) descriptor {
 			d.Script = append(d.Script, ev(rapid.IntRange(0, nb-1).Draw(rt, "earlyWhich")))
 		}
 		d.Script = append(d.Script, drive.Stim{Kind: "answer"})
+	}
+	if d.HostKind != "sub" && rapid.IntRange(0, 3).Draw(rt, "loop") == 0 {
+		// earlier activations of the host that complete normally, without events
+		// (a sub-process entered repeatedly is finding C12-F3's pattern)
+		d.Loop = rapid.IntRange(1, 2).Draw(rt, "loops")
+		for i := 0; i < d.Loop; i++ {
+			d.Script = append(d.Script, drive.Stim{Kind: "answer"}, drive.Stim{Kind: "answer", Ans: &model.Answer{Kind: model.AnsOK, Results: map[string]any{"again": true}}})
+			if rapid.IntRange(0, 2).Draw(rt, "betweenNm") == 0 {
+				d.Script = append(d.Script, nonMatch)
+			}
+		}
 	}
 	if exF1 && exF3 {
 		// each boundary exactly once while the host waits, in a drawn order, non-matching events in between
@@ -161,7 +191,7 @@ func draw(rt *rapid.T) descriptor {
 		na = 2 + nb
 	}
 	for k := 0; k < na; k++ {
-		d.Script = append(d.Script, drive.Stim{Kind: "answer", Pick: rapid.IntRange(0, 3).Draw(rt, "pick")})
+		d.Script = append(d.Script, drive.Stim{Kind: "answer", Pick: rapid.IntRange(0, 3).Draw(rt, "pick"), Ans: leave(d)})
 	}
 	if !exF3 || true {
 		nl := rapid.IntRange(0, 2).Draw(rt, "late")
@@ -180,9 +210,24 @@ func seq(n int) []int {
 	return out
 }
 
+func vars(d descriptor) map[string]any {
+	if d.Loop > 0 {
+		return map[string]any{"again": false}
+	}
+	return nil
+}
+
+// leave is the answer that does not send the token round the loop again
+func leave(d descriptor) *model.Answer {
+	if d.Loop > 0 {
+		return &model.Answer{Kind: model.AnsOK, Results: map[string]any{"again": false}}
+	}
+	return nil
+}
+
 func run(d descriptor) (*drive.ScriptOutcome, *built) {
 	bt := build(d)
-	c := &drive.ScriptCase{Graph: bt.g, Lang: "expr", Script: d.Script, Perturb: d.Perturb, Drain: true}
+	c := &drive.ScriptCase{Graph: bt.g, Lang: "expr", Vars: vars(d), Script: d.Script, Perturb: d.Perturb, Drain: true, DrainAns: leave(d)}
 	return drive.RunScript(c), bt
 }
 
@@ -191,7 +236,7 @@ func run(d descriptor) (*drive.ScriptOutcome, *built) {
 // that model step by step is one of the listed findings; anything else is new.
 func runAsIs(d descriptor) *drive.ScriptOutcome {
 	bt := build(d)
-	c := &drive.ScriptCase{Graph: bt.g, Lang: "expr", Script: d.Script, Perturb: d.Perturb, Drain: true, ModelAsIs: true}
+	c := &drive.ScriptCase{Graph: bt.g, Lang: "expr", Vars: vars(d), Script: d.Script, Perturb: d.Perturb, Drain: true, DrainAns: leave(d), ModelAsIs: true}
 	return drive.RunScript(c)
 }
 
@@ -265,6 +310,9 @@ func classify(d descriptor, out *drive.ScriptOutcome) (cls []string, nt bool) {
 		}
 	}
 	cls = append(cls, "host="+d.HostKind, fmt.Sprintf("bounds=%d", len(d.Bounds)))
+	if d.Loop > 0 {
+		cls = append(cls, "hostActivatedBefore")
+	}
 	for _, b := range d.Bounds {
 		if b.Interrupt {
 			cls = append(cls, "interrupting")
